@@ -63,7 +63,7 @@ def cells(tier, seed):
         out.append({'id': f"chain2/{unit}", 'fn': 'h_chain', 'round': 'lite', 'max_paths': 120, 'cost': 3,
                     'params': {'unit': unit, 'src': ['water', 'NaCl', 'lipase']}})
     # plate pairing forms
-    forms = ['c->row', 'row->c', 'well->row', 'row->well', 'row->row', 'c->list', 'list->c', 'list->list']
+    forms = ['c->row', 'row->c', 'well->row', 'row->well', 'row->row', 'c->list', 'list->c', 'list->list', 'twin/row->row']
     for form in forms:
         for unit in (['uL', 'mg'] if tier == 'quick' else ['uL', 'mg', 'mmol', 'U']):
             out.append({'id': f"plate/{form}/{unit}", 'fn': 'h_plate', 'round': 'lite', 'max_paths': 200, 'cost': 4,
@@ -333,9 +333,14 @@ def h_plate(h):
             for rc, rd in zip(cells_, cells2):
                 _check_aliquot(h, lib, form, P.wells[rc], P2.wells[rc], qb, base)
                 _check_gain(h, form, P.wells[rc], P2.wells[rc], Q.wells[rd], Q2.wells[rd])
-    elif form == 'row->row':
+    elif form in ('row->row', 'twin/row->row'):
         P = _mk_plate(h, lib, 'P', 1, n, mix)
-        Q = _mk_plate(h, lib, 'Q', 1, n, ['water'])
+        if form == 'twin/row->row':
+            # a replicate: a second, distinct plate with the same name, labels and (at this moment) identical wells
+            from copy import deepcopy
+            Q = deepcopy(P)
+        else:
+            Q = _mk_plate(h, lib, 'Q', 1, n, ['water'])
         for c in range(n):
             h.assume(h.le(qb, lib.total(P.wells[0, c].contents, base)))
         try:
@@ -344,6 +349,6 @@ def h_plate(h):
             h.outcome = 'raised:' + type(e).__name__
             return
         for c in range(n):
-            _check_aliquot(h, lib, 'row->row', P.wells[0, c], P2.wells[0, c], qb, base)
-            _check_gain(h, 'row->row', P.wells[0, c], P2.wells[0, c], Q.wells[0, c], Q2.wells[0, c])
+            _check_aliquot(h, lib, form, P.wells[0, c], P2.wells[0, c], qb, base)
+            _check_gain(h, form, P.wells[0, c], P2.wells[0, c], Q.wells[0, c], Q2.wells[0, c])
     h.outcome = 'ok'
